@@ -65,7 +65,8 @@ a
 pm *
     cl * %ordered
         ~
-""", [S(["pm k1"], [PB(["cl 1", "cl 2", "cl 3"], [S(["s 1", "s 2"])] + ([] if rt.TIER == "quick" else [S(["p"])]))])]),
+""", [S(["pm k1"], [PB(["cl 1", "cl 2", "cl 3"], [S(["s 1", "s 2"])] + ([] if rt.TIER == "quick" else [S(["p"])]),
+                        maxlen=3 if rt.TIER == "quick" else 2)])]),
 }
 FAM = os.environ.get("VT_FAM", "D1")
 TEXT, SLOTS = FAMS[FAM]
